@@ -386,6 +386,42 @@ def r07_8(ck: Check) -> None:
     ck.expect_count("R07.8", "Serializable subclasses", n, 20)
 
 
+def r07_9(ck: Check) -> None:
+    """objects that carry a remembered id (Transaction, Block, BlockHeader: cached_hash) come from their constructor or their decoder,
+    where the id is either absent or computed from the consumed bytes. A shallow copy that is then edited keeps the OLD id for NEW content."""
+    ctl = ast.parse("import copy\ndef f(tx):\n    t2 = copy.copy(tx)\n    t2.inputs = []\n    return t2\n")
+    if len(_copies(ctl)) != 1:
+        ck.unknown("R07.9", "positive control", "the copy scan did not flag its control snippet")
+        return
+    n = 0
+    for m in ck.repo.modules.values():
+        for line, text in _copies(m.tree):
+            n += 1
+            ck.violated("R07.9", "%s:%d %s" % (m.path.replace(ck.repo.root + "/", ""), line, text),
+                        "a copied value object keeps its remembered id while its content can be changed: the same id for different bytes "
+                        "(construct a new object instead)", "%s:%d" % (m.path, line))
+    if not n:
+        ck.ok("R07.9", "no copy.copy / copy.deepcopy / dataclasses.replace / __new__ of value objects anywhere in the package", "%d modules" % len(ck.repo.modules), "")
+
+
+def _copies(tree: ast.AST) -> List[Tuple[int, str]]:
+    out = []
+    names = {"copy", "deepcopy", "replace"}
+    imported: Set[str] = set()
+    for n in ast.walk(tree):
+        if isinstance(n, ast.ImportFrom) and n.module in ("copy", "dataclasses"):
+            for a in n.names:
+                if a.name in names:
+                    imported.add(a.asname or a.name)
+    for n in ast.walk(tree):
+        if isinstance(n, ast.Call):
+            d = dotted(n.func) or ""
+            if d in ("copy.copy", "copy.deepcopy", "dataclasses.replace") or (isinstance(n.func, ast.Name) and n.func.id in imported) \
+                    or d.endswith(".__new__") or (d.endswith("._replace") and False):
+                out.append((n.lineno, ast.unparse(n)[:60]))
+    return out
+
+
 def _ancestors(ck: Check, q: str) -> List[str]:
     out: List[str] = []
     todo = [q]
@@ -413,8 +449,8 @@ def r07_6(ck: Check) -> None:
                 for c in ast.walk(n):
                     if isinstance(c, ast.Call) and (dotted(c.func) or "").split(".")[-1] in ("safe_read", "read"):
                         has_while_read = True
-        if not has_while_read:
-            continue
+        if not has_while_read and "vlq" not in fi.name:
+            continue            # (the variable-length integer decoder is a subject whatever its loop looks like)
         found += 1
         s = ck.summ(fi.qualname, 0)
         construct = "%s: decoded value is re-encoded and compared with the bytes consumed" % short(fi.qualname)
@@ -526,6 +562,7 @@ def check(ck: Check) -> None:
     ck.run("R07.5", "id provenance", lambda: r07_5(ck))
     ck.run("R07.6", "single accepted encoding of the variable-length integer", lambda: r07_6(ck))
     ck.run("R07.8", "byte-level entry points are the generic wrappers", lambda: r07_8(ck))
+    ck.run("R07.9", "id-carrying objects are constructed, never copied", lambda: r07_9(ck))
     from .c08 import r08_3, r08_7
     ck.run("R07.5b", "ids handed out by the store reader belong to the content they are attached to", lambda: (r08_3(ck), r08_7(ck, "R07.5")))
     ck.run("R07.7", "__eq__ completeness (notes)", lambda: r07_7(ck))
